@@ -167,12 +167,13 @@ def mktmp():
 PARTS = {
     "C02": ["c02", "c02b"],
     "C03": ["c03", "c03b"],
-    "C10": ["c10", "c10b"],
+    "C10": ["c10", "c10b", "c10c"],
     "C13": ["c13", "c13b"],
     "C14": ["c14", "c14b"],
     "C15": ["c15", "c15b"],
     "C16": ["c16", "c16b", "c16c"],
-    "C18": ["c18", "c18b"],
+    "C17": ["c17", "c17b"],
+    "C18": ["c18", "c18b", "c18c"],
 }
 
 
